@@ -1,0 +1,59 @@
+//go:build verif
+
+package auth
+
+// Contracts for govc (comment-only; compiled only with -tags verif). Property C19.
+//
+//@ spec import C19
+//
+//@ func (*CredentialsStore) Check
+//@   pure
+//@   requires [recv] c != nil
+//@   ensures [def] result == (username in c.store && c.store[username] == password)
+//
+//@ func (*CredentialsStore) Password
+//@   pure
+//@   requires [recv] c != nil
+//@   ensures [def] result1 == (username in c.store) && (result1 ==> result0 == c.store[username])
+//
+//@ func (*CredentialsStore) HasPerm
+//@   pure
+//@   requires [recv] c != nil
+//@   ensures [def] result == has(c, username, perm)
+//
+//@ func (*CredentialsStore) HasAnyPerm
+//@   pure
+//@   requires [recv] c != nil
+//@   loop 1 invariant [none-yet] forall j int :: 0 <= j && j < i ==> !has(c, username, p[j])
+//@   ensures [any] result == (exists j int :: 0 <= j && j < len(perm) && has(c, username, perm[j]))
+//
+//@ func (*CredentialsStore) AA
+//@   pure
+//@   ensures [rule] result == (c == nil || authorized(c, username, password, perm))
+//
+//@ func (*CredentialsStore) CheckRequest
+//@   requires [recv] c != nil
+//
+//@ func (*CredentialsStore) HasPermRequest
+//@   requires [recv] c != nil
+//
+// Load: ghost n counts the entries decoded so far; entry k of the JSON array is described by the
+// uninterpreted functions ent*(k) of specs/C19.spec. The call-site assumption is the documented
+// behaviour of json.Decode (fields present in the input are overwritten, the others are left as
+// they were). The ghost maps gdom/gpw are the sequential "last definition wins" fold of the
+// entries' OWN fields (absent = empty): the invariant says the store agrees with that fold.
+//
+//@ spec import lib/json
+//@ func (*CredentialsStore) Load
+//@   requires [recv] c != nil && c.store != nil && c.perms != nil
+//@   ghost var n int = 0
+//@   ghost var gdom map[string]bool = empty("map[string]bool")
+//@   ghost var gpw map[string]string
+//@   assume @dec.Decode: [json-decode] result == nil ==> (cred.Username == ite(entHasUser(n), entUser(n), pre(cred.Username)) && cred.Password == ite(entHasPw(n), entPw(n), pre(cred.Password)) && cred.Perms == ite(entHasPerms(n), entPerms(n), pre(cred.Perms)))
+//@   ghost update @dec.Decode: gdom = update(gdom, effUser(n), true)
+//@   ghost update @dec.Decode: gpw = update(gpw, effUser(n), effPw(n))
+//@   ghost update @dec.Decode: n = n + 1
+//@   loop 1 invariant [count] n >= 0
+//@   loop 1 invariant [last-wins-pw] forall u string :: u in gdom ==> (u in c.store && c.store[u] == gpw[u])
+//@   loop 2 invariant [perms-prefix] forall q string :: (q in c.perms[cred.Username]) <==> (exists j int :: 0 <= j && j < _i && cred.Perms[j] == q)
+//@   ensures [last-wins-pw] result == nil ==> (forall u string :: u in gdom ==> (u in c.store && c.store[u] == gpw[u]))
